@@ -1197,6 +1197,38 @@ def mon_c02_two(spec, run):
 MONITORS["C02two"] = mon_c02_two
 
 
+def mon_c03_late(spec, run):
+    """subunit objects constructed on a live connection while lines were being delivered: what the device reports afterwards for their subunit
+    and functions is what their attributes read"""
+    bad = []
+    tr = run.trace
+    lc = next((e for e in tr if e["k"] == "late_constructed"), None)
+    if lc is None:
+        return bad
+    for st in [e for e in tr if e["k"] == "late_state"]:
+        it = spec["late"]["inits"][st["idx"]]
+        sid, readable = it["expect_id"], set(it["readable"])
+        last = {}
+        for rseq, wend, text in lines_by_read(tr):
+            m = _LINE.fullmatch(text)
+            # lines read well after the construction and completely handled before the attributes were looked at
+            if m and m.group(1) == sid and m.group(2) in readable and _t(tr, rseq) > lc["t"] + 300_000 and wend < st["seq"]:
+                d = decode_show(it["class"], m.group(2), m.group(3))
+                if d is not None:
+                    last[m.group(2)] = (d, text)
+                else:
+                    last.pop(m.group(2), None)
+        for fn, (d, text) in last.items():
+            if st["attrs"].get(fn) != d:
+                bad.append(("late-object", f"a {it['class']} object constructed on the live connection (while lines were being delivered) reads {fn}={st['attrs'].get(fn)!r}; "
+                                           f"the device reported {text!r} {(_t(tr, st['seq']) - lc['t']) / 1e6:.1f}s after its construction at the latest"))
+                return bad
+    return bad
+
+
+MONITORS["C03late"] = mon_c03_late
+
+
 def mon_c09_updates(spec, run):
     """update callbacks of real subunit objects on a live connection (reader thread + the thread that initialises): the invocations of an
     object's callback are, in order, reports that arrived for its subunit and modelled functions — each at most once, none invented, none
